@@ -734,10 +734,14 @@ qb_vsnprintf_deserialize(char *string, size_t str_len, const char *buf)
 		if (*p == '\0') {
 			return my_strlcat(string, format, str_len) + 1;
 		}
-		/* copy from current to the next % */
+		/* copy from current to the next %, keeping room for the NUL */
 		len = p - format;
+		if (location + len > str_len - 1) {
+			len = str_len - 1 - location;
+		}
 		memcpy(&string[location], format, len);
 		location += len;
+		string[location] = '\0';
 		format = p;
 
 		/* start building up the format for snprintf */
@@ -921,10 +925,17 @@ reprocess:
 			break;
 			}
 		case '%':
-			string[location++] = '%';
+			if (location < str_len - 1) {
+				string[location++] = '%';
+			}
+			string[location] = '\0';
 			format++;
 			break;
 
+		}
+		/* snprintf() reports the length it wanted to write */
+		if (location > str_len - 1) {
+			location = str_len - 1;
 		}
 	}
 	return location;
